@@ -332,6 +332,7 @@ namespace {
       Balance b = run_history(h);
       rep.count("traces");
       rep.count("states");
+      if (rep.samples.size() < rep.sample_cap and h.size() >= 2) rep.sample(vf::JObj{}.str("history", hist_name(h)).num("blocks_still_live", b.blocks).num("bytes_still_live", b.bytes).num("unmatched_deletes", b.bad).done());
       if (b.blocks == 0 and b.bytes == 0 and b.bad == 0) return true;
       // replay before report: a one-time lazy allocation inside the C++ runtime does not repeat
       Balance b2 = run_history(h);
